@@ -1,19 +1,651 @@
-//! ipvote engine (ops starting with `v`).
+//! ipvote engine (C17): ops starting with `v` against `service::ip_vote::IpVote` (through the
+//! facade `discv5::verif::ipvote`).
+//!
+//! Ops / replies (see `lean/Driver/IpvoteDrv.lean`):
+//!   vnew MIN DUR_MS | vins VOTER F:ADDR | vsleep MS | vmaj | vhas | vthr N | vthrcode N
+//!
+//! Time.  `IpVote` reads `Instant::now()`, the model has an explicit clock that only `vsleep`
+//! advances.  The generator keeps every vote's age at every check either `<= DUR - MARGIN` or
+//! `>= DUR` in model time; the runner measures the real drift (real elapsed minus model clock)
+//! and, when it comes close to the margin, re-executes the case's ops so far on a fresh `IpVote`
+//! (the real code is simply run again; nothing is skipped).
+//!
+//! Monitors (`!MON C17 …`), from the runner's own ledger (latest vote per voter, expiry by the
+//! model clock) and the property's own numbers (margin 0.3, spelled here as a literal):
+//!   below-minimum        majority() returned an address with fewer than MIN unexpired votes
+//!   rival-within-margin  majority() returned an address although a rival has at least
+//!                        round(count * (1.0 - 0.3)) votes
+//!   thr-above-margin     derived from majority() itself: the leader with n votes is still
+//!                        returned with a rival at round(n * (1.0 - 0.3)) votes
+//! The other direction (clear majority but nothing returned) is not a violation of C17 ("only");
+//! it is counted (`vmaj.clear-but-none`) and shows up as a disagreement with the model.
 #![allow(unused)]
 use crate::rng::Rng;
 use crate::util::*;
 use crate::{Runner, Stats};
+use discv5::enr::NodeId;
+use discv5::verif::ipvote::{thresholds_via_majority, IpVote};
+use std::collections::{BTreeMap, HashMap};
+use std::net::{Ipv4Addr, Ipv6Addr, SocketAddr, SocketAddrV4, SocketAddrV6};
+use std::panic::AssertUnwindSafe;
+use std::time::{Duration, Instant};
+
+/// The clear-majority threshold as the property states it (margin 0.3), evaluated in binary64 as
+/// the documentation of `ip_vote.rs` describes.  Independent of /repo.
+fn spec_thr(n: usize) -> usize {
+    ((n as f64) * (1.0 - 0.3)).round() as usize
+}
+
+// ---- integer mirror (transliteration of `thrF64` in Model/IpVote.lean, for `vthr`) -------------
+fn rne(x: u128, d: u128) -> u128 {
+    let q = x / d;
+    let r = x % d;
+    if 2 * r < d {
+        q
+    } else if d < 2 * r {
+        q + 1
+    } else if q % 2 == 0 {
+        q
+    } else {
+        q + 1
+    }
+}
+fn log2(n: u128) -> u32 {
+    127 - n.leading_zeros()
+}
+fn rnd53(n: u128) -> u128 {
+    if n < (1u128 << 53) {
+        n
+    } else {
+        let s = log2(n) - 52;
+        rne(n, 1u128 << s) * (1u128 << s)
+    }
+}
+fn rat_to_f64(p: u128, q: u128) -> (u128, u32) {
+    if p == 0 {
+        return (0, 0);
+    }
+    let k0 = 52 + log2(q) - log2(p);
+    let k = if (p << k0) / q >= (1u128 << 52) { k0 } else { k0 + 1 };
+    (rne(p << k, q), k)
+}
+fn mirror_thr(n: u64) -> u64 {
+    let (m, k) = rat_to_f64(3, 10);
+    let cm = rnd53((1u128 << k) - m);
+    let r = rnd53(rnd53(n as u128) * cm);
+    ((2 * r + (1u128 << k)) / (1u128 << (k + 1))) as u64
+}
+
+// ---- addresses --------------------------------------------------------------------------------
+fn parse_sock(tok: &str) -> Option<SocketAddr> {
+    let (fam, rest) = tok.split_once(':')?;
+    let (ip, port) = rest.rsplit_once(':')?;
+    let port: u16 = port.parse().ok()?;
+    match fam {
+        "4" => Some(SocketAddr::V4(SocketAddrV4::new(ip.parse().ok()?, port))),
+        "6" => {
+            let b: [u8; 16] = unhx(ip)?.try_into().ok()?;
+            Some(SocketAddr::V6(SocketAddrV6::new(Ipv6Addr::from(b), port, 0, 0)))
+        }
+        _ => None,
+    }
+}
+fn show4(a: &SocketAddrV4) -> String {
+    format!("{}:{}", a.ip(), a.port())
+}
+fn show6(a: &SocketAddrV6) -> String {
+    format!("{}:{}", hx(&a.ip().octets()), a.port())
+}
+fn voter_id(v: u64) -> NodeId {
+    let mut raw = [0u8; 32];
+    raw[24..32].copy_from_slice(&v.to_be_bytes());
+    raw[0] = 0x5a;
+    NodeId::new(&raw)
+}
+
+/// Real drift (ms) beyond which a timed case is re-executed; the generator's margin is 40 ms.
+const DRIFT_LIMIT_MS: u64 = 22;
 
 #[derive(Default)]
-pub struct IpvoteRunner;
+pub struct IpvoteRunner {
+    votes: Option<IpVote>,
+    min: usize,
+    dur_ms: u64,
+    clock: u64,
+    start: Option<Instant>,
+    /// family -> voter -> (address token, model time of the insert)
+    ledger: [HashMap<u64, (String, u64)>; 2],
+    /// state-changing ops of the current case (for re-execution)
+    log: Vec<String>,
+}
 
-impl Runner for IpvoteRunner {
-    fn reset(&mut self) {}
-    fn step(&mut self, _line: &str, out: &mut Vec<String>, _stats: &mut Stats) {
-        out.push("bad-op".into());
+impl IpvoteRunner {
+    fn timed(&self) -> bool {
+        self.dur_ms < 600_000
+    }
+
+    fn drift(&self) -> u64 {
+        match self.start {
+            Some(s) => (s.elapsed().as_millis() as u64).saturating_sub(self.clock),
+            None => 0,
+        }
+    }
+
+    /// Executes a state-changing op on the real `IpVote`; returns the reply text.
+    fn exec(&mut self, toks: &[&str]) -> String {
+        match toks {
+            ["vnew", m, d] => {
+                let (m, d): (usize, u64) = match (m.parse(), d.parse()) {
+                    (Ok(m), Ok(d)) => (m, d),
+                    _ => return "bad-op".into(),
+                };
+                self.min = m;
+                self.dur_ms = d;
+                self.clock = 0;
+                self.votes = no_panic(|| IpVote::new(m, Duration::from_millis(d)));
+                self.start = Some(Instant::now());
+                if self.votes.is_some() {
+                    "ok".into()
+                } else {
+                    "err:panic".into()
+                }
+            }
+            ["vins", voter, sock] => {
+                let (Some(v), Ok(voter), Some(s)) = (self.votes.as_mut(), voter.parse::<u64>(), parse_sock(sock)) else {
+                    return "bad-op".into();
+                };
+                match no_panic(AssertUnwindSafe(|| v.insert(voter_id(voter), s))) {
+                    Some(()) => "ok".into(),
+                    None => "panic".into(),
+                }
+            }
+            ["vsleep", ms] => {
+                let Ok(ms) = ms.parse::<u64>() else { return "bad-op".into() };
+                if self.timed() {
+                    std::thread::sleep(Duration::from_millis(ms));
+                }
+                self.clock += ms;
+                "ok".into()
+            }
+            ["vmaj"] => {
+                let Some(v) = self.votes.as_mut() else { return "bad-op".into() };
+                match no_panic(AssertUnwindSafe(|| v.majority())) {
+                    Some((m4, m6)) => format!(
+                        "4={} 6={}",
+                        m4.as_ref().map(show4).unwrap_or_else(|| "none".into()),
+                        m6.as_ref().map(show6).unwrap_or_else(|| "none".into())
+                    ),
+                    None => "panic".into(),
+                }
+            }
+            ["vhas"] => {
+                let Some(v) = self.votes.as_mut() else { return "bad-op".into() };
+                match no_panic(AssertUnwindSafe(|| v.has_minimum_threshold())) {
+                    Some((a, b)) => format!("{} {}", a, b),
+                    None => "panic".into(),
+                }
+            }
+            _ => "bad-op".into(),
+        }
+    }
+
+    /// Re-executes the case so far on a fresh `IpVote` until the drift is small.
+    fn resync(&mut self, stats: &mut Stats) {
+        for _ in 0..4 {
+            if self.drift() <= DRIFT_LIMIT_MS {
+                return;
+            }
+            stats.bump("vtime.reexecuted");
+            let log = std::mem::take(&mut self.log);
+            for l in &log {
+                let t: Vec<&str> = l.split(' ').collect();
+                let _ = self.exec(&t);
+            }
+            self.log = log;
+        }
+        stats.bump("vtime.unresolved-drift");
+    }
+
+    /// Latest unexpired votes per address for a family, by the model clock.
+    fn recount(&self, fam: usize) -> BTreeMap<String, usize> {
+        let mut c = BTreeMap::new();
+        for (_, (addr, t)) in self.ledger[fam].iter() {
+            if self.clock < t + self.dur_ms {
+                *c.entry(addr.clone()).or_insert(0) += 1;
+            }
+        }
+        c
+    }
+
+    fn monitor_majority(&self, fam: usize, got: &str, out: &mut Vec<String>, stats: &mut Stats) {
+        let counts = self.recount(fam);
+        let f = if fam == 0 { 4 } else { 6 };
+        let expired = self.ledger[fam].values().filter(|(_, t)| self.clock >= t + self.dur_ms).count();
+        if expired > 0 {
+            stats.bump("vmaj.with-expired-votes");
+        }
+        let best = counts.values().copied().max().unwrap_or(0);
+        if got != "none" {
+            stats.bump(if fam == 0 { "vmaj.some4" } else { "vmaj.some6" });
+            let c = counts.get(got).copied().unwrap_or(0);
+            let rival = counts.iter().filter(|(a, _)| a.as_str() != got).map(|(_, n)| *n).max().unwrap_or(0);
+            if c < self.min {
+                out.push(format!(
+                    "!MON C17 below-minimum fam={} addr={} unexpired-votes={} minimum={}",
+                    f, got, c, self.min
+                ));
+            }
+            if rival >= spec_thr(c) {
+                out.push(format!(
+                    "!MON C17 rival-within-margin fam={} addr={} votes={} rival-votes={} margin-threshold={}",
+                    f, got, c, rival, spec_thr(c)
+                ));
+            }
+            if rival > 0 {
+                stats.bump("vmaj.some-with-rival");
+            }
+            if rival + 1 == spec_thr(c) {
+                stats.bump("vmaj.some-at-margin");
+            }
+            if c == self.min {
+                stats.bump("vmaj.some-at-minimum");
+            }
+        } else {
+            // is there a clear majority by the property's own numbers?
+            let mut clear = false;
+            for (a, &c) in counts.iter() {
+                let rival = counts.iter().filter(|(b, _)| *b != a).map(|(_, n)| *n).max().unwrap_or(0);
+                if c >= self.min && rival < spec_thr(c) {
+                    clear = true;
+                }
+                if c >= self.min && rival >= spec_thr(c) && c == best {
+                    stats.bump("vmaj.none-competing");
+                    if rival == spec_thr(c) {
+                        stats.bump("vmaj.none-at-margin");
+                    }
+                }
+            }
+            if clear {
+                stats.bump("vmaj.clear-but-none");
+            } else if best > 0 && best < self.min {
+                stats.bump("vmaj.none-below-minimum");
+                if best + 1 == self.min {
+                    stats.bump("vmaj.none-one-below-minimum");
+                }
+            }
+        }
     }
 }
 
-pub fn gen_case(_rng: &mut Rng, _tier: &str, _profile: &str, _stats: &mut Stats) -> Vec<String> {
-    Vec::new()
+impl Runner for IpvoteRunner {
+    fn reset(&mut self) {
+        *self = IpvoteRunner::default();
+    }
+
+    fn step(&mut self, line: &str, out: &mut Vec<String>, stats: &mut Stats) {
+        let toks: Vec<&str> = line.split(' ').collect();
+        match toks.as_slice() {
+            ["vnew", ..] => {
+                self.log.clear();
+                self.ledger = Default::default();
+                let r = self.exec(&toks);
+                self.log.push(line.to_string());
+                stats.bump(if r == "ok" { "vnew.ok" } else { "vnew.rejected" });
+                if r == "ok" && self.timed() {
+                    stats.bump("vnew.timed");
+                }
+                out.push(r);
+            }
+            ["vins", voter, sock] => {
+                if self.timed() {
+                    self.resync(stats);
+                }
+                let r = self.exec(&toks);
+                if r == "ok" {
+                    self.log.push(line.to_string());
+                    let fam = if sock.starts_with("6:") { 1 } else { 0 };
+                    let addr = sock[2..].to_string();
+                    let voter: u64 = voter.parse().unwrap_or(0);
+                    match self.ledger[fam].insert(voter, (addr.clone(), self.clock)) {
+                        Some((old, _)) if old != addr => stats.bump("vins.changed-vote"),
+                        Some(_) => stats.bump("vins.repeated-vote"),
+                        None => stats.bump("vins.first-vote"),
+                    }
+                    stats.bump(if fam == 0 { "vins.v4" } else { "vins.v6" });
+                }
+                out.push(r);
+            }
+            ["vsleep", _] => {
+                let r = self.exec(&toks);
+                if r == "ok" {
+                    self.log.push(line.to_string());
+                    stats.bump("vsleep");
+                }
+                out.push(r);
+            }
+            ["vmaj"] | ["vhas"] => {
+                if self.timed() {
+                    self.resync(stats);
+                }
+                let r = self.exec(&toks);
+                self.log.push(line.to_string());
+                if toks[0] == "vmaj" {
+                    if let Some((a, b)) = r.split_once(' ') {
+                        if let (Some(m4), Some(m6)) = (a.strip_prefix("4="), b.strip_prefix("6=")) {
+                            self.monitor_majority(0, m4, out, stats);
+                            self.monitor_majority(1, m6, out, stats);
+                            if m4 != "none" && m6 != "none" {
+                                stats.bump("vmaj.both-families");
+                            }
+                        }
+                    }
+                    stats.bump("vmaj");
+                } else {
+                    stats.bump("vhas");
+                }
+                out.push(r);
+            }
+            ["vthr", n] => {
+                let Ok(n) = n.parse::<u64>() else {
+                    out.push("bad-op".into());
+                    return;
+                };
+                let (mut sum, mut wsum, mut mismatch) = (0u128, 0u128, None);
+                for i in 0..=n {
+                    let t = ((i as f64) * (1.0 - 0.3)).round() as u64; // the real binary64 computation
+                    if mismatch.is_none() && mirror_thr(i) != t {
+                        mismatch = Some(i);
+                    }
+                    sum += t as u128;
+                    wsum = (wsum + (i as u128 + 1) * t as u128) % 2305843009213693951u128;
+                }
+                stats.add("vthr.values", n + 1);
+                out.push(format!(
+                    "thr {} sum={} wsum={} mismatch={}",
+                    n,
+                    sum,
+                    wsum,
+                    mismatch.map(|i| i.to_string()).unwrap_or_else(|| "none".into())
+                ));
+            }
+            ["vthrcode", n] => {
+                let Ok(n) = n.parse::<usize>() else {
+                    out.push("bad-op".into());
+                    return;
+                };
+                match no_panic(|| thresholds_via_majority(n)) {
+                    None => out.push("panic".into()),
+                    Some(ts) => {
+                        for (i, t) in ts.iter().enumerate() {
+                            let cnt = i + 3;
+                            match t {
+                                Some(t) if *t > spec_thr(cnt) => out.push(format!(
+                                    "!MON C17 thr-above-margin leader-votes={} still-returned-with-rival-votes={} margin-threshold={}",
+                                    cnt, t - 1, spec_thr(cnt)
+                                )),
+                                Some(t) if *t < spec_thr(cnt) => stats.bump("vthrcode.stricter"),
+                                Some(_) => stats.bump("vthrcode.equal"),
+                                None => stats.bump("vthrcode.not-a-threshold"),
+                            }
+                        }
+                        let s: Vec<String> =
+                            ts.iter().map(|t| t.map(|t| t.to_string()).unwrap_or_else(|| "x".into())).collect();
+                        out.push(format!("thrcode {} {}", n, s.join(",")));
+                    }
+                }
+            }
+            _ => out.push("bad-op".into()),
+        }
+    }
+}
+
+// ---- generator --------------------------------------------------------------------------------
+
+struct Pool {
+    v4: Vec<String>,
+    v6: Vec<String>,
+}
+
+fn gen_pool(rng: &mut Rng) -> Pool {
+    let ip = Ipv4Addr::from(rng.next() as u32 | 0x0100_0000);
+    let port = rng.range(1024, 60000) as u16;
+    let mut v4 = vec![format!("4:{}:{}", ip, port), format!("4:{}:{}", ip, port + 1)];
+    for _ in 0..rng.below(3) {
+        v4.push(format!("4:{}:{}", Ipv4Addr::from(rng.next() as u32 | 0x0100_0000), rng.range(1, 65535)));
+    }
+    let mut v6 = Vec::new();
+    let ip6 = rng.bytes(16);
+    let p6 = rng.range(1024, 60000);
+    v6.push(format!("6:{}:{}", hx(&ip6), p6));
+    v6.push(format!("6:{}:{}", hx(&ip6), p6 + 1));
+    if rng.chance(1, 2) {
+        v6.push(format!("6:{}:{}", hx(&rng.bytes(16)), rng.range(1, 65535)));
+    }
+    Pool { v4, v6 }
+}
+
+/// Leader counts where the binary64 threshold differs from the naive ⌊(7n+5)/10⌋.
+const ODD_COUNTS: [usize; 9] = [45, 85, 165, 175, 325, 335, 345, 355, 365];
+
+pub fn gen_case(rng: &mut Rng, tier: &str, _profile: &str, stats: &mut Stats) -> Vec<String> {
+    let mut ops = Vec::new();
+    // rejected constructor
+    if rng.chance(1, 60) {
+        ops.push(format!("vnew {} 1000", rng.below(2)));
+        stats.bump("gen.vnew-below-2");
+    }
+    let min = rng.range(2, 6) as usize;
+    let pool = gen_pool(rng);
+    let timed = rng.chance(1, 40);
+    let mut next_voter: u64 = rng.below(1000) * 1000;
+    let mut fresh = |n: &mut u64| {
+        *n += 1;
+        *n
+    };
+    if timed {
+        // vote duration 100 ms, the clock moves in steps of 60 ms: ages 0/60 (live, margin 40 ms)
+        // and >= 120 (expired)
+        stats.bump("gen.case.timed");
+        ops.push(format!("vnew {} 100", min));
+        let a = pool.v4[0].clone();
+        let b = pool.v4[1].clone();
+        let a6 = pool.v6[0].clone();
+        let g1 = min + rng.below(3) as usize;
+        let mut old = Vec::new();
+        for _ in 0..g1 {
+            let v = fresh(&mut next_voter);
+            old.push(v);
+            ops.push(format!("vins {} {}", v, a));
+        }
+        if rng.chance(1, 2) {
+            for _ in 0..min {
+                ops.push(format!("vins {} {}", fresh(&mut next_voter), a6));
+            }
+        }
+        ops.push("vmaj".into());
+        ops.push("vsleep 60".into());
+        // a second group, for the rival or the same address; some old voters renew or switch
+        let g2 = rng.below(min as u64 + 2) as usize;
+        let tgt = if rng.chance(1, 2) { a.clone() } else { b.clone() };
+        for _ in 0..g2 {
+            ops.push(format!("vins {} {}", fresh(&mut next_voter), tgt));
+        }
+        if rng.chance(1, 2) && !old.is_empty() {
+            let v = old[rng.below(old.len() as u64) as usize];
+            ops.push(format!("vins {} {}", v, if rng.chance(1, 2) { a.clone() } else { b.clone() }));
+        }
+        ops.push("vmaj".into());
+        if rng.chance(1, 2) {
+            ops.push("vhas".into());
+        }
+        ops.push("vsleep 60".into()); // first group (age 120) has expired, second (age 60) has not
+        ops.push("vmaj".into());
+        if rng.chance(1, 2) {
+            ops.push(format!("vins {} {}", fresh(&mut next_voter), tgt));
+            ops.push("vmaj".into());
+        }
+        ops.push("vhas".into());
+        ops.push("vsleep 60".into()); // second group expired
+        ops.push("vmaj".into());
+        return ops;
+    }
+    ops.push(format!("vnew {} 3600000", min));
+    match rng.below(10) {
+        // random walk: votes from a small population over a few addresses, majority after every op
+        0..=3 => {
+            stats.bump("gen.case.random");
+            let voters = rng.range(1, 24);
+            let n = rng.range(4, if tier == "thorough" { 70 } else { 45 });
+            let dual = rng.chance(1, 2);
+            let base = next_voter;
+            for _ in 0..n {
+                let v = base + rng.below(voters);
+                let addr = if dual && rng.chance(2, 5) {
+                    rng.pick(&pool.v6).clone()
+                } else if rng.chance(3, 5) {
+                    pool.v4[0].clone()
+                } else {
+                    rng.pick(&pool.v4).clone()
+                };
+                ops.push(format!("vins {} {}", v, addr));
+                ops.push("vmaj".into());
+                if rng.chance(1, 8) {
+                    ops.push("vhas".into());
+                }
+            }
+        }
+        // margin boundary: leader with n votes, rival walks over thr(n)-2 .. thr(n)+1
+        4..=6 => {
+            stats.bump("gen.case.margin");
+            let n = match rng.below(6) {
+                0 => *rng.pick(&ODD_COUNTS[..if tier == "thorough" { 9 } else { 4 }]),
+                1 => min,
+                2 => min + 1,
+                _ => rng.range(min as u64, 40) as usize,
+            };
+            let v6 = rng.chance(1, 4);
+            let (a, b, c) = if v6 {
+                (pool.v6[0].clone(), pool.v6[1].clone(), pool.v6[pool.v6.len() - 1].clone())
+            } else {
+                (pool.v4[0].clone(), pool.v4[1].clone(), pool.v4[pool.v4.len() - 1].clone())
+            };
+            let t = spec_thr(n);
+            let lead_first = rng.chance(1, 2);
+            let mut rivals = Vec::new();
+            let pre = t.saturating_sub(2);
+            if lead_first {
+                for _ in 0..n {
+                    ops.push(format!("vins {} {}", fresh(&mut next_voter), a));
+                }
+            }
+            for _ in 0..pre {
+                let v = fresh(&mut next_voter);
+                rivals.push(v);
+                ops.push(format!("vins {} {}", v, b));
+            }
+            if !lead_first {
+                for i in 0..n {
+                    ops.push(format!("vins {} {}", fresh(&mut next_voter), a));
+                    if i + 3 >= n {
+                        ops.push("vmaj".into());
+                    }
+                }
+            }
+            ops.push("vmaj".into());
+            // a third address that stays small
+            if rng.chance(1, 3) {
+                ops.push(format!("vins {} {}", fresh(&mut next_voter), c));
+                ops.push("vmaj".into());
+            }
+            for _ in pre..t + 1 {
+                let v = fresh(&mut next_voter);
+                rivals.push(v);
+                ops.push(format!("vins {} {}", v, b));
+                ops.push("vmaj".into());
+            }
+            // rivals change their mind one by one (to the leader or to a third address) and back
+            for _ in 0..rng.below(4) {
+                if let Some(v) = rivals.pop() {
+                    let to = if rng.chance(1, 2) { a.clone() } else { c.clone() };
+                    ops.push(format!("vins {} {}", v, to));
+                    ops.push("vmaj".into());
+                    if rng.chance(1, 3) {
+                        ops.push(format!("vins {} {}", v, b));
+                        ops.push("vmaj".into());
+                    }
+                }
+            }
+        }
+        // minimum boundary: addresses reach minimum-1, minimum; a few liars below the minimum
+        7 => {
+            stats.bump("gen.case.minimum");
+            let a = pool.v4[0].clone();
+            let b = pool.v4[1].clone();
+            for _ in 0..min - 1 {
+                ops.push(format!("vins {} {}", fresh(&mut next_voter), b));
+                ops.push("vmaj".into());
+            }
+            // the same liars vote again and again
+            let base = next_voter;
+            for _ in 0..rng.below(6) {
+                ops.push(format!("vins {} {}", base - rng.below(min as u64 - 1), b));
+                ops.push("vmaj".into());
+            }
+            for _ in 0..min + 1 {
+                ops.push(format!("vins {} {}", fresh(&mut next_voter), a));
+                ops.push("vmaj".into());
+            }
+            ops.push("vhas".into());
+        }
+        // dual stack: both families near their own boundaries, interleaved
+        8 => {
+            stats.bump("gen.case.dual");
+            let n4 = rng.range(min as u64 - 1, min as u64 + 6) as usize;
+            let n6 = rng.range(min as u64 - 1, min as u64 + 6) as usize;
+            let (mut i4, mut i6) = (0, 0);
+            let base = next_voter;
+            while i4 < n4 || i6 < n6 {
+                if i6 >= n6 || (i4 < n4 && rng.chance(1, 2)) {
+                    // the same peers vote in both families
+                    let addr = if rng.chance(1, 5) { pool.v4[1].clone() } else { pool.v4[0].clone() };
+                    ops.push(format!("vins {} {}", base + i4 as u64, addr));
+                    i4 += 1;
+                } else {
+                    let addr = if rng.chance(1, 5) { pool.v6[1].clone() } else { pool.v6[0].clone() };
+                    ops.push(format!("vins {} {}", base + i6 as u64, addr));
+                    i6 += 1;
+                }
+                ops.push("vmaj".into());
+                if rng.chance(1, 6) {
+                    ops.push("vhas".into());
+                }
+            }
+        }
+        // three-way and ties
+        _ => {
+            stats.bump("gen.case.threeway");
+            let k = rng.range(min as u64, 12) as usize;
+            let addrs = [pool.v4[0].clone(), pool.v4[1].clone(), pool.v4[pool.v4.len() - 1].clone()];
+            for i in 0..k {
+                for a in addrs.iter() {
+                    ops.push(format!("vins {} {}", fresh(&mut next_voter), a));
+                }
+                if i + 2 >= k {
+                    ops.push("vmaj".into());
+                }
+            }
+            // break the tie step by step
+            for _ in 0..rng.range(1, 8) {
+                ops.push(format!("vins {} {}", fresh(&mut next_voter), addrs[0]));
+                ops.push("vmaj".into());
+            }
+        }
+    }
+    if rng.chance(1, 50) {
+        ops.push(format!("vthr {}", rng.range(0, 4000)));
+    }
+    if rng.chance(1, 80) {
+        ops.push(format!("vthrcode {}", rng.range(3, 90)));
+    }
+    ops
 }
